@@ -465,6 +465,12 @@ func mkOps[T any](ty int, mk func(v int, bad any, p *pubInfo) T) typeOps {
 			if bad {
 				b = make(chan int)
 			}
+			if v%5 == 3 {
+				// the event held in an interface variable: `var ev any = E{…}; Publish(bus, ev)` reaches the handlers of E
+				// through the reflection path of the dispatcher
+				eb.PublishContext[any](cs.bus, ctx, any(mk(v, b, p)))
+				return
+			}
 			eb.PublishContext(cs.bus, ctx, mk(v, b, p))
 		},
 	}
